@@ -218,8 +218,13 @@ class QGrammar:
             return P.op(env.ctx, k, a=q, b=t, c=n, q=q, thread=env.thread)
         return None
 
+    barrier_block_objects = False
+
     def emit_submit(self, P, kind, q, b, c, bodies, env, group=0):
         o = P.op(env.ctx, kind, a=q, b=b & 1, c=group, q=q, thread=env.thread, depth=env.depth, parent=env.ctx)
+        if self.barrier_block_objects and kind in ("basync", "bsync", "baaw") and (b >> 5) % 4 == 0:
+            o.b |= 2         # the barrier is a property of the block object (DISPATCH_BLOCK_BARRIER) handed to the plain dispatch_async/sync/async_and_wait
+            P.features.add("barrier-from-block-object")
         if kind in e3.ASYNC_KINDS:
             env.pending.append(o)
         # item body
